@@ -5,6 +5,9 @@
 #include "momo/details/HashBucketOpen8.h"
 namespace momo { namespace internal {
 template class BucketOpen2N2<HashSetItemTraits<uint64_t, MemManagerDefault>, 3, true>;
+template class BucketOpen2N2<HashSetItemTraits<uint64_t, MemManagerDefault>, 1, true>;
+template class BucketOpen2N2<HashSetItemTraits<uint64_t, MemManagerDefault>, 2, true>;
+template class BucketOpen2N2<HashSetItemTraits<uint64_t, MemManagerDefault>, 3, false>;
 template class BucketOpenN1<HashSetItemTraits<uint64_t, MemManagerDefault>, 3, true>;
 template class BucketOpen8<HashSetItemTraits<uint64_t, MemManagerDefault>>;
 }}
